@@ -90,32 +90,50 @@ theorem held_not_released (n : Nat) (ops : List Op) (o : Nat) (ow : Owner) (hd :
     | false => rfl
     | true => have := (hinv.reg_ok _ reg hreg).rel_iff.mp hx; omega
 
-/-- **Pool accounting**: at every quiescent point `TrackingMemoryPool::used()` equals the sum
-of the capacities of the live claimed regions — no reservation is leaked by a release or a
-conversion, none is counted twice by a re-claim or by clones of the same region. -/
-theorem pool_is_live_claimed (n : Nat) (ops : List Op) :
-    (reach n ops).pool = poolExpected (reach n ops) := by
+/-- **Pool accounting, per pool**: at every quiescent point, for every pool `p`,
+`p.used()` equals the sum of the capacities of the live regions whose reservation is held in
+`p` — no reservation is leaked by a release or a conversion, none is counted twice by a
+re-claim or by clones of the same region, and re-claiming a region (through any of its handles)
+into another pool moves its whole charge from the old pool to the new one. -/
+theorem pool_is_live_claimed (n : Nat) (ops : List Op) (p : Nat) :
+    (reach n ops).pool p = poolExpected (reach n ops) p := by
   have hinv := reach_inv n ops
-  rw [hinv.pool_eq]
+  rw [hinv.pool_eq p]
   unfold poolExpected
-  generalize hS : reach n ops = S at *
-  have key : ∀ (l : List Region), (∀ reg ∈ l, RegionOk reg) →
-      sumMap (fun reg => reg.claimed.getD 0) l = sumMap Region.claimedCap l := by
-    intro l hl
-    apply sumMap_congr
-    intro reg hm
-    have hok := hl reg hm
-    unfold Region.claimedCap
-    cases hx : reg.released with
+  generalize reach n ops = S at *
+  apply sumMap_congr
+  intro reg hm
+  obtain ⟨k, hk⟩ := List.getElem?_of_mem hm
+  have hok := hinv.reg_ok k reg hk
+  unfold Region.claimIn Region.claimedCap
+  split
+  · cases hx : reg.released with
     | true => simp [hok.rel_claim hx]
     | false =>
       cases hc : reg.claimed with
       | none => simp
       | some c => simp [hok.claim_cap c hc]
-  apply key
-  intro reg hm
-  obtain ⟨k, hk⟩ := List.getElem?_of_mem hm
-  exact hinv.reg_ok k reg hk
+  · rfl
+
+/-- **Re-claiming moves the charge**: claiming, through the handle in slot `i`, a live region
+that is currently charged to pool `a` into a different pool `b` leaves `a` with exactly the
+region's capacity less and `b` with exactly its capacity more (and every other pool
+unchanged) — the step-level statement behind `pool_is_live_claimed`. -/
+theorem reclaim_moves_charge (s : State) (i r a b : Nat) (reg : Region) (h : Inv s)
+    (hi : (s.slots[i]?).bind Slot.region? = some r) (hr : s.regions[r]? = some reg)
+    (hc : reg.claimed = some reg.cap) (ha : reg.claimPool = a) (hab : a ≠ b) :
+    (step s (.claim i b)).1.pool a + reg.cap = s.pool a ∧
+    (step s (.claim i b)).1.pool b = s.pool b + reg.cap ∧
+    ∀ q, q ≠ a → q ≠ b → (step s (.claim i b)).1.pool q = s.pool q := by
+  have hle := claimed_le_pool h hr
+  rw [hc, ha] at hle
+  simp only [Option.getD_some] at hle
+  simp only [step, opClaim, hi, hr, poolAdjust, hc, ha, Option.getD_some]
+  refine ⟨?_, ?_, ?_⟩
+  · simp [hab]; omega
+  · have : ¬ (b = a) := fun x => hab x.symm
+    simp [this]
+  · intro q hqa hqb; simp [hqa, hqb]
 
 /-- **A `MutableBuffer` is the only handle on its region.** -/
 theorem mutable_is_exclusive (n : Nat) (ops : List Op) (i r l : Nat)
@@ -190,10 +208,17 @@ a custom buffer wrapped twice and dropped owner-first: all checks of `specOk` ho
 cascade released both wrappers and the user allocation exactly once -/
 example :
     let s := reach 4 [.allocVec 0 16 16 1 5, .clone 0 1, .intoMutable 0, .drop 1, .intoMutable 0,
-      .write 0 3 255, .freeze 0, .claim 0, .allocCustom 1 8 3, .wrap 1 2 2 4, .wrap 2 3 1 2,
+      .write 0 3 255, .freeze 0, .claim 0 0, .allocCustom 1 8 3, .wrap 1 2 2 4, .wrap 2 3 1 2,
       .drop 1, .drop 2, .drop 3]
-    specOk s = true ∧ s.pool = 16 ∧ s.owners.map Owner.drops = [1, 1, 1] ∧
+    specOk s = true ∧ s.pool 0 = 16 ∧ s.owners.map Owner.drops = [1, 1, 1] ∧
     s.regions.map Region.released = [false, true, true, true] := by decide
+
+/-- claim through one handle into pool 0, re-claim through a slice of the same region into
+pool 2, claim a second region into pool 2 as well, drop the first region's handles -/
+example :
+    let s := reach 4 [.allocVec 0 16 24 1 5, .slice 0 1 4 8, .claim 0 0, .claim 1 2, .allocMut 2 3 100 1, .claim 2 2]
+    specOk s = true ∧ (s.pool 0, s.pool 1, s.pool 2) = (0, 0, 24 + 128) ∧
+    ((run s [.drop 0, .drop 1]).pool 2 = 128) := by decide
 
 /-- export two buffers, drop the originals, import: the imported regions keep the struct (and
 through it the original regions) alive; dropping them in any order releases everything once -/
